@@ -234,7 +234,12 @@ def write_evidence(prop, tier, seed, level, rule, result, wall_s, n_violations, 
         'property_id': prop, 'tier': tier, 'seed': int(seed), 'level': level, 'coverage': coverage,
         'assumptions': result.assumptions, 'wall_s': round(wall_s, 3), 'violations': int(n_violations),
     }
-    path = os.path.join(VERIF_DIR, 'evidence', f'{prop}.json')
+    if REPO == '/repo':
+        path = os.path.join(VERIF_DIR, 'evidence', f'{prop}.json')
+    else:
+        # a run against a scratch tree (mutation self-test) never overwrites the evidence of the real tree
+        os.makedirs(os.path.join(VERIF_DIR, '.work', 'evidence-scratch'), exist_ok=True)
+        path = os.path.join(VERIF_DIR, '.work', 'evidence-scratch', f'{prop}.json')
     tmp = path + '.tmp'
     with open(tmp, 'w') as fd:
         json.dump(ev, fd, indent=1, sort_keys=False)
@@ -245,7 +250,9 @@ def write_evidence(prop, tier, seed, level, rule, result, wall_s, n_violations, 
 
 def write_replay(prop, violation, tier, seed):
     d = digest(json.dumps(violation.to_json(), sort_keys=True))
-    path = os.path.join(VERIF_DIR, 'replays', f'{prop}-{d}.json')
+    rdir = os.path.join(VERIF_DIR, 'replays')
+    os.makedirs(rdir, exist_ok=True)
+    path = os.path.join(rdir, f'{prop}-{d}.json')
     with open(path, 'w') as fd:
         json.dump({'property': prop, 'tier': tier, 'seed': seed, **violation.to_json()}, fd, indent=1)
         fd.write('\n')
